@@ -152,9 +152,20 @@ def gen_libobl(name):
     idn = ident(name)
     o = io.StringIO()
     o.write(HEADER)
-    o.write('import PGA.Gen.Lib_%s\nnamespace PGA.Gen.LibObl_%s\nopen PGA PGA.LibTable PGA.Gen.Lib_%s\n\n' % (idn, idn, idn))
+    o.write('import PGA.Gen.Lib_%s\nimport PGA.Props.C14Eval\nnamespace PGA.Gen.LibObl_%s\nopen PGA PGA.LibTable PGA.Gen.Lib_%s\n\n' % (idn, idn, idn))
     o.write('\n/-- every group of the library as loaded is self-consistent -/\n')
     o.write('theorem groups_wf : groups.all wfGroup = true := by decide +kernel\n')
+    o.write('/-- C14-T1 for this library (instance of `C14_wf_group_evaluates`, no further kernel evaluation): every group is\n'
+            'constructed by the thermo model from its dumped data and returns a value for Cp/R, H/RT, S/R, G/RT - whichever it has\n'
+            'data for - at every rational T of its range, for every interpolant -/\n')
+    o.write('theorem groups_evaluate (ip : PGA.Thermo.Interp) : ∀ g ∈ groups, ∃ c, g.correlation ip = .ok c ∧\n'
+            '    ∀ T, PGA.Thermo.inRange T (effRange g) → EvaluatesAt g c T :=\n'
+            '  fun g hg => C14_wf_group_evaluates ip g (List.all_eq_true.mp groups_wf g hg)\n')
+    o.write('/-- ... and reproduces its reference values and its table, for an interpolant that passes through the table and has\n'
+            'additive integrals (instance of `C14_wf_group_reproduces`) -/\n')
+    o.write('theorem groups_reproduce (ip : PGA.Thermo.Interp) (hgood : ip.Good) : ∀ g ∈ groups, ip.Hits g.pts →\n'
+            '    ∃ c, g.correlation ip = .ok c ∧ ReproducesData g c :=\n'
+            '  fun g hg hh => C14_wf_group_reproduces ip hgood g (List.all_eq_true.mp groups_wf g hg) hh\n')
     o.write('theorem names_distinct : keysDistinct (groups.map (·.name)) = true := by decide +kernel\n')
     o.write('theorem remaps_wf : remaps.all wfRemap = true := by decide +kernel\n')
     o.write('theorem remaps_chain_free : chainFree remaps = true := by decide +kernel\n')
@@ -237,7 +248,8 @@ def obligation_names():
     for nm in lib_names():
         idn = ident(nm)
         out += ['PGA.Gen.LibObl_%s.%s' % (idn, t) for t in
-                ['groups_wf', 'names_distinct', 'remaps_wf', 'remaps_chain_free', 'remap_keys_distinct']]
+                ['groups_wf', 'groups_evaluate', 'groups_reproduce', 'names_distinct', 'remaps_wf', 'remaps_chain_free',
+                 'remap_keys_distinct']]
         if has_uq(nm):
             out += ['PGA.Gen.LibObl_%s.%s' % (idn, t) for t in ['uq_basis_has_data', 'uq_basis_distinct', 'uq_dof_number']]
             out += ['PGA.Gen.UqObl_%s.%s' % (idn, t) for t in ['sized_basis', 'sized_m', 'sized_l', 'sym', 'cert', 'psd']]
